@@ -40,7 +40,7 @@ def run(ctx):
     allz = sorted(eb)
     nb = 15
     batches = [allz[i::nb] for i in range(nb)]
-    outs = forkrun.map_fresh("ptv.nsfexec", "serve", [{"zs": b, "private": True, "variant": i % 4} for i, b in enumerate(batches)])
+    outs = forkrun.map_fresh("ptv.nsfexec", "serve", [{"zs": b, "private": True, "variant": i % 6} for i, b in enumerate(batches)])
     st, nodes = forkrun.call_fresh("ptv.nsfexec", "nodes", {})
     if st != "ok":
         ctx.error("node child failed: " + nodes[-500:])
